@@ -218,6 +218,9 @@ def c12(res, tier, seed):
 @check("C13")
 def c13(res, tier, seed):
     b = build_harness(PKG)
+    r = tlc("MC_Utf8", cfg({"Alphabet": "{0,65,127,128,159,160,191,192,194,224,237,239,240,244,245}", "MaxLen": D(tier, 3, 4)},
+                           invariants=["DefinitionsAgree", "PrefixLaw"]))
+    res.add_tlc(r, "VUtf8: table-driven DFA = definitional decoder on all strings over the 15-byte corner alphabet")
     # validated strings (editions VERIFY / proto3) and non-validated (proto2) in every position: singular, repeated, oneof, map key/value
     mc(res, b, "utf8-te", BASE_TE, [14, 44, 69, 113, 15], ["marshal", "rt", "uenc"], 2, bad_utf8=True, laws=["AllWellFormed", "RoundTripLaw"])
     mc2(tier, res, b, "utf8-t3", BASE_T3, [94, 44, 69, 113], ["marshal", "rt", "uenc"], 2, bad_utf8=True, laws=["AllWellFormed", "RoundTripLaw"])
